@@ -126,11 +126,14 @@ class StripWhitespaceFilter:
 
     def _stripws_identifierlist(self, tlist):
         # Removes newlines before commas, see issue140
-        last_nl = None
+        last_ws = []
         for token in list(tlist.tokens):
-            if last_nl and token.ttype is T.Punctuation and token.value == ',':
-                tlist.tokens.remove(last_nl)
-            last_nl = token if token.is_whitespace else None
+            if last_ws and token.ttype is T.Punctuation and token.value == ',':
+                # every whitespace token in front of the comma, not only
+                # the last one ("a\n ,b")
+                for ws in last_ws:
+                    tlist.tokens.remove(ws)
+            last_ws = last_ws + [token] if token.is_whitespace else []
 
             # next_ = tlist.token_next(token, skip_ws=False)
             # if (next_ and not next_.is_whitespace and
